@@ -199,7 +199,7 @@ pub fn run_blob_opts<B: Backend>(acc: &mut Acc, c: &BlobCase, filter: Option<&Mu
     if expensive && acc.tier == Tier::Quick {
         // RSA-4096 private operation per mutant: keep a deterministic spread of ~220
         let step = (muts.len() / 220).max(1);
-        muts = muts.into_iter().enumerate().filter(|(i, m)| i % step == 0 || m.id.class.starts_with("delete")).map(|(_, m)| m).collect();
+        muts = muts.into_iter().enumerate().filter(|(i, m)| i % step == 0 || m.id.class.starts_with("delete") || m.id.class.starts_with("correlated")).map(|(_, m)| m).collect();
     }
     let min_len = *bounds.last().unwrap();
     if relabel_only {
@@ -302,6 +302,19 @@ pub fn run_blob_opts<B: Backend>(acc: &mut Acc, c: &BlobCase, filter: Option<&Mu
         acc.nt(hash_of(&(c, &id)));
         if r.is_ok() {
             acc.fail(Fail::new(format!("C06/{name}/{kn}/{ks}/{}/accepted", id.class), "blob unwrapped with another key / password / recipient"), rcase(&id));
+        }
+    }
+    // after all those rejected attempts (wrong tags, tampered parameters under the RIGHT password,
+    // other keys) the untouched blob must still unwrap to the original key: a failed unwrap leaves
+    // nothing behind
+    if filter.is_none() && !relabel_only {
+        let id = mk("control-after-failures", 0);
+        acc.eval();
+        acc.nt(hash_of(&(c, &id)));
+        match unwrap_any(&text) {
+            Ok(k) if model::pem_to_der(&k) == model::pem_to_der(&orig_key) => acc.class("control-after-failures:accepted"),
+            Ok(_) => acc.fail(Fail::new(format!("C06/{name}/{kn}/{ks}/control-after-failures/key-differs"), "after a series of rejected mutants the unmutated blob unwraps to a different key"), rcase(&id)),
+            Err(e) => acc.fail(Fail::new(format!("C06/{name}/{kn}/{ks}/control-after-failures/rejected"), format!("after a series of rejected mutants the unmutated blob is rejected: {e}")), rcase(&id)),
         }
     }
     // header relabels: other key kind (same version), other versions (same secret bytes)
